@@ -80,6 +80,8 @@ Definition run_dbool (p : zformula) : bool := dbool p.
 
 (* the model of the dense-time offline visitors (untimed fragment) *)
 Definition run_deval (p : zformula) (W : list (list (Z * extz))) : option (list (Z * extz)) := deval ExtZArith p W.
+(* the IA-STL dense-time offline visitors: the same visitor with the predicate kinds of the semantics *)
+Definition run_deval_pk (pk : zformula -> zformula -> pkind) (p : zformula) (W : list (list (Z * extz))) : option (list (Z * extz)) := deval_pk ExtZArith pk p W.
 
 Definition run_hor (p : zformula) : nat := hor p.
 Definition run_bounded_future (p : zformula) : bool := bounded_future p.
